@@ -123,7 +123,7 @@ def op_misc(p):
     if p["rel"]:
         opts += [(2, st.just(("mode",)))]
     if p["home_mid"]:
-        opts.append((1, st.tuples(st.just("home"), st.sampled_from(["", " X", " Y", " Z", " X Y", " X Y Z", " X0 Y0", " Z0", " X0"]))))
+        opts.append((1, st.tuples(st.just("home"), st.sampled_from(["", " X", " Y", " Z", " X Y", " X Y Z", " X0 Y0", " Z0", " X0", " W", " W X"]))))
     if p["ext"]:
         opts += [(p.get("ext_w", 2), st.tuples(st.just("ext"), st.integers(0, len(EXT_POOL) - 1)))]
     if p["at"]:
@@ -906,11 +906,14 @@ def cases(draw, p):
     exact = p["exact"] and draw(st.integers(0, 3)) == 0
     nreg = draw(st.sampled_from([0, 1, 1, 1, 2, 2, 3]))
     regions = [draw(_CACHE[("reg", k, exact)]) for k in range(nreg)]
-    delta = draw(st.sampled_from([0.508, 1.27, 2.54]))
+    delta = draw(st.sampled_from([0.508, 1.27, 2.54, 0.508, 1.27, 2.54, 12.7]))      # (12.7 mm: a long Bowden retraction)
     fw = draw(st.booleans())
     abstract = draw(ops(p))
     rnd = Renderer(cfg, regions, p, delta, fw, exact)
     rnd.fw_spelling = draw(st.sampled_from([0, 0, 1, 2, 3]))
+    if p.get("at_w", 2) and draw(st.integers(0, 9)) == 0:
+        # start G-code that switches exclusion off (or on) before anything else, even before homing
+        rnd.op(("at", draw(st.sampled_from(["off", "off", "disable", "on"])), "ExcludeRegion", None))
     rnd.start(inch=bool(p["inch"] and not exact and draw(st.integers(0, 4)) == 0),
               z0=bool(p.get("z0_start", True) and draw(st.integers(0, 5)) == 0))
     # a long print now and then: the same abstract ops over and over (each pass renders differently, from where the last one
